@@ -302,7 +302,7 @@ func TestSideBySide(t *testing.T) {
 }
 
 func TestDecorated(t *testing.T) {
-	ev.Rapid(t, "decorated-documents", 4000, 8000000, func(t *rapid.T) {
+	ev.Rapid(t, "decorated-documents", 4000, 800000, func(t *rapid.T) {
 		c := genCase(t)
 		var st stats
 		err := ev.Try(func() error {
